@@ -25,7 +25,7 @@ pub fn spelling(k: &PoolKey, which: u32) -> (Vec<u8>, &'static str) {
     }
 }
 
-fn mel_fee_coin(d: &Driver, exclude: &[CoinID]) -> Option<(CoinID, CoinDataHeight)> {
+pub fn mel_fee_coin(d: &Driver, exclude: &[CoinID]) -> Option<(CoinID, CoinDataHeight)> {
     let mut v: Vec<_> = d.spendable().into_iter().filter(|(c, x)| x.coin_data.denom == Denom::Mel && x.coin_data.value.0 > 2_000_000 && !exclude.contains(c)).collect();
     v.sort_by_key(|(_, x)| x.coin_data.value.0);
     v.into_iter().next()
@@ -35,13 +35,19 @@ pub fn known_pools(d: &Driver) -> Vec<(PoolKey, PoolState)> {
     lj::pools_typed(&d.view(), &d.w.names)
 }
 
-pub fn swap_tx(d: &mut Driver, key: PoolKey, side_left: bool, frac: u32, spell: u32, kind: TxKind) -> Option<(Transaction, String)> {
+fn pick(d: &mut Driver, denom: Denom, exclude: &[CoinID]) -> Option<(CoinID, CoinDataHeight)> {
+    let c: Vec<_> = d.spendable().into_iter().filter(|(c, x)| x.coin_data.denom == denom && x.coin_data.value.0 > 0 && !exclude.contains(c)).collect();
+    c.choose(&mut d.r).cloned()
+}
+
+pub fn swap_tx(d: &mut Driver, key: PoolKey, side_left: bool, frac: u32, spell: u32, kind: TxKind, exclude: &[CoinID]) -> Option<(Transaction, String)> {
     let denom = if side_left { key.left() } else { key.right() };
-    let sp = d.spendable();
-    let coin = sp.iter().filter(|(_, x)| x.coin_data.denom == denom && x.coin_data.value.0 > 0).max_by_key(|(_, x)| x.coin_data.value.0)?.clone();
+    let coin = pick(d, denom, exclude)?;
     let mut ins = vec![coin.clone()];
     if denom != Denom::Mel {
-        ins.push(mel_fee_coin(d, &[coin.0])?);
+        let mut ex = exclude.to_vec();
+        ex.push(coin.0);
+        ins.push(mel_fee_coin(d, &ex)?);
     }
     let amount = match frac {
         0 => 0,
@@ -57,21 +63,24 @@ pub fn swap_tx(d: &mut Driver, key: PoolKey, side_left: bool, frac: u32, spell: 
     Some((t, format!("swap {}->{} amount {} spelling {} kind {:?}", if side_left { "L" } else { "R" }, if side_left { "R" } else { "L" }, amount, sname, kind)))
 }
 
-pub fn deposit_tx(d: &mut Driver, key: PoolKey, fl: u32, fr: u32, spell: u32) -> Option<(Transaction, String)> {
-    let sp = d.spendable();
-    let cl = sp.iter().filter(|(_, x)| x.coin_data.denom == key.left() && x.coin_data.value.0 > 0).max_by_key(|(_, x)| x.coin_data.value.0)?.clone();
-    let cr = sp.iter().filter(|(c, x)| x.coin_data.denom == key.right() && x.coin_data.value.0 > 0 && *c != cl.0).max_by_key(|(_, x)| x.coin_data.value.0)?.clone();
+pub fn deposit_tx(d: &mut Driver, key: PoolKey, fl: u32, fr: u32, spell: u32, exclude: &[CoinID]) -> Option<(Transaction, String)> {
+    let cl = pick(d, key.left(), exclude)?;
+    let mut ex = exclude.to_vec();
+    ex.push(cl.0);
+    let cr = pick(d, key.right(), &ex)?;
+    ex.push(cr.0);
     let mut ins = vec![cl.clone(), cr.clone()];
     if key.left() != Denom::Mel && key.right() != Denom::Mel {
-        ins.push(mel_fee_coin(d, &[cl.0, cr.0])?);
+        ins.push(mel_fee_coin(d, &ex)?);
     }
     let amt = |v: u128, f: u32| match f {
         0 => 0,
         1 => 1,
         2 => 4,
         3 => v / 1000 + 1,
+        5 => v / 1000 + 1,
         _ => v / 4,
-    };
+    }.min(if v > 1 { v / 2 } else { v });
     let a = d.wal.random_address(&mut d.r);
     let (data, sname) = spelling(&key, spell);
     let al = amt(cl.1.coin_data.value.0, fl);
@@ -80,11 +89,12 @@ pub fn deposit_tx(d: &mut Driver, key: PoolKey, fl: u32, fr: u32, spell: u32) ->
     Some((t, format!("deposit ({}, {}) spelling {}", al, ar, sname)))
 }
 
-pub fn withdraw_tx(d: &mut Driver, key: PoolKey, all: bool, spell: u32) -> Option<(Transaction, String)> {
-    let sp = d.spendable();
+pub fn withdraw_tx(d: &mut Driver, key: PoolKey, all: bool, spell: u32, exclude: &[CoinID]) -> Option<(Transaction, String)> {
     let liq = key.liq_token_denom();
-    let c = sp.iter().filter(|(_, x)| x.coin_data.denom == liq && x.coin_data.value.0 > 0).max_by_key(|(_, x)| x.coin_data.value.0)?.clone();
-    let fee = mel_fee_coin(d, &[c.0])?;
+    let c = pick(d, liq, exclude)?;
+    let mut ex = exclude.to_vec();
+    ex.push(c.0);
+    let fee = mel_fee_coin(d, &ex)?;
     let q = if all { c.1.coin_data.value.0 } else { c.1.coin_data.value.0 / 3 + 1 };
     let a = d.wal.random_address(&mut d.r);
     let (data, sname) = spelling(&key, spell);
@@ -93,7 +103,8 @@ pub fn withdraw_tx(d: &mut Driver, key: PoolKey, all: bool, spell: u32) -> Optio
     if q < c.1.coin_data.value.0 {
         // split first so that the withdrawal has a single output: pay change in an earlier transaction
         let a2 = d.wal.random_address(&mut d.r);
-        let fee2 = mel_fee_coin(d, &[c.0, ins[1].0])?;
+        ex.push(ins[1].0);
+        let fee2 = mel_fee_coin(d, &ex)?;
         let split = d.build(TxKind::Normal, &[c.clone(), fee2], vec![mk_coin(a2, q, liq, &[])], 1, vec![], 0)?;
         if !d.apply(&[split.clone()], 0, json!({"why": "split-liq-tokens"})) {
             return None;
@@ -144,10 +155,10 @@ pub fn pool_step(d: &mut Driver) {
         let req = match d.r.gen_range(0..10) {
             0..=4 => {
                 let kind = if d.r.gen_bool(0.85) { TxKind::Swap } else { [TxKind::Normal, TxKind::LiqDeposit, TxKind::LiqWithdraw, TxKind::Stake][d.r.gen_range(0..4)] };
-                { let (s1, f1) = (d.r.gen(), d.r.gen_range(0..5)); swap_tx(d, key, s1, f1, spell, kind) }
+                { let (s1, f1) = (d.r.gen(), d.r.gen_range(0..5)); swap_tx(d, key, s1, f1, spell, kind, &used) }
             }
-            5..=7 => { let (f1, f2) = (d.r.gen_range(0..5), d.r.gen_range(0..5)); deposit_tx(d, key, f1, f2, spell) }
-            _ => { let all = d.r.gen_bool(0.5); withdraw_tx(d, key, all, spell) }
+            5..=7 => { let (f1, f2) = (d.r.gen_range(0..5), d.r.gen_range(0..5)); deposit_tx(d, key, f1, f2, spell, &used) }
+            _ => { let all = d.r.gen_bool(0.5); withdraw_tx(d, key, all, spell, &used) }
         };
         if let Some((t, w)) = req {
             if t.inputs.iter().any(|c| used.contains(c)) {
@@ -164,5 +175,133 @@ pub fn pool_step(d: &mut Driver) {
     }
     if !batch.is_empty() {
         d.apply(&batch, 0, json!({"why": why}));
+    }
+}
+
+
+/// Pool-heavy history: many holders, many requests per pool and block on both sides, amounts over many magnitudes,
+/// plus directed situations (equal simultaneous deposits, withdraw everything, swaps on an emptied pool, drain attempts).
+pub fn swap_history(out: &mut crate::Out, tag: &str, seed: u64, net: NetID, blocks: usize, big: bool) {
+    use std::collections::BTreeMap;
+    let mut d = Driver::new(out, tag, seed, net, 300, Denom::Mel, 1u128 << 70, 1 << 30, BTreeMap::new());
+    d.wal.simple = true;
+    d.seal_next(Some(false));
+    // holders
+    let unit: u128 = if big { 1u128 << 96 } else { 50_000_000_000 };
+    let mut outs = vec![];
+    for i in 0..10 {
+        let a = d.wal.address(CovKind::New(i % 4));
+        outs.push(mk_coin(a, unit + i as u128 * 1_000_003, Denom::Mel, &[]));
+        outs.push(mk_coin(a, 40_000_000, Denom::Mel, &[]));
+        outs.push(mk_coin(a, 45_000_000, Denom::Mel, &[]));
+        if i < 6 {
+            outs.push(mk_coin(a, unit / 3 + i as u128, Denom::Sym, &[]));
+            outs.push(mk_coin(a, unit / 5 + 7 * i as u128, Denom::Erg, &[]));
+        }
+    }
+    let f = d.faucet(outs, 0, 9);
+    d.apply(&[f], 0, json!({"why": "holders"}));
+    d.seal_next(Some(true));
+    // directed: a brand-new pool with two equal deposits in one block
+    if let Some(tok) = new_token(&mut d) {
+        // split the token into 4 coins
+        let holder: Vec<_> = d.spendable().into_iter().filter(|(_, x)| x.coin_data.denom == tok).collect();
+        if let (Some(t), Some(fee)) = (holder.first().cloned(), mel_fee_coin(&d, &[])) {
+            let a = d.wal.address(CovKind::New(1));
+            let v = t.1.coin_data.value.0;
+            let q = (v / 8).max(1);
+            let fixed = vec![mk_coin(a, 4, tok, &[]), mk_coin(a, 4, tok, &[]), mk_coin(a, q, tok, &[]), mk_coin(a, q, tok, &[])];
+            if let Some(sp) = d.build(TxKind::Normal, &[t, fee], fixed, 1, vec![], 0) {
+                d.apply(&[sp], 0, json!({"why": "split-token"}));
+            }
+        }
+        let key = PoolKey::new(Denom::Mel, tok);
+        let mut batch = vec![];
+        let mut used: Vec<CoinID> = vec![];
+        for _ in 0..2 {
+            // (4, 4) deposits: choose the 4-valued token coins and small MEL coins
+            let tokc: Vec<_> = d.spendable().into_iter().filter(|(c, x)| x.coin_data.denom == tok && x.coin_data.value.0 == 4 && !used.contains(c)).collect();
+            let melc = mel_fee_coin(&d, &used);
+            if let (Some(tc), Some(mc)) = (tokc.first().cloned(), melc) {
+                let a = d.wal.address(CovKind::New(2));
+                let (l, r) = if key.left() == Denom::Mel { (mc.clone(), tc.clone()) } else { (tc.clone(), mc.clone()) };
+                let fixed = vec![mk_coin(a, 4, key.left(), &[]), mk_coin(a, 4, key.right(), &[])];
+                if let Some(t) = d.build(TxKind::LiqDeposit, &[l, r], fixed, 1, key.to_bytes().to_vec(), 0) {
+                    used.extend(t.inputs.iter().copied());
+                    batch.push(t);
+                }
+            }
+        }
+        if batch.len() == 2 {
+            d.apply(&batch, 0, json!({"why": "two equal deposits (4,4) into a new pool"}));
+        }
+        d.seal_next(Some(true));
+        // both withdraw everything in one block
+        let mut batch = vec![];
+        let mut used: Vec<CoinID> = vec![];
+        for _ in 0..2 {
+            if let Some((t, _)) = withdraw_tx(&mut d, key, true, 0, &used) {
+                used.extend(t.inputs.iter().copied());
+                batch.push(t);
+            }
+        }
+        if !batch.is_empty() {
+            d.apply(&batch, 0, json!({"why": "withdraw everything"}));
+        }
+        d.seal_next(None);
+        // swap against the emptied pool
+        if let Some((t, w)) = swap_tx(&mut d, key, key.left() == Denom::Mel, 2, 0, TxKind::Swap, &[]) {
+            d.apply(&[t], 0, json!({"why": format!("swap on emptied pool: {}", w)}));
+        }
+        d.seal_next(Some(true));
+    }
+    for b in 0..blocks {
+        let nbatches = d.r.gen_range(1..=2);
+        for _ in 0..nbatches {
+            let pools = known_pools(&d);
+            let mut batch: Vec<Transaction> = vec![];
+            let mut why: Vec<String> = vec![];
+            let nreq = d.r.gen_range(2..=9);
+            let focus = pools.choose(&mut d.r).map(|x| x.0);
+            for _ in 0..nreq {
+                let key = if d.r.gen_bool(0.7) { focus.unwrap() } else { pools.choose(&mut d.r).unwrap().0 };
+                let used: Vec<CoinID> = batch.iter().flat_map(|t| t.inputs.clone()).collect();
+                let spell = if d.r.gen_bool(0.75) { 0 } else { d.r.gen_range(0..13) };
+                let req = match d.r.gen_range(0..12) {
+                    0..=6 => {
+                        let kind = if d.r.gen_bool(0.9) { TxKind::Swap } else { [TxKind::Normal, TxKind::LiqDeposit, TxKind::LiqWithdraw][d.r.gen_range(0..3)] };
+                        let (s1, f1) = (d.r.gen(), d.r.gen_range(0..5));
+                        swap_tx(&mut d, key, s1, f1, spell, kind, &used)
+                    }
+                    7..=9 => {
+                        let (f1, f2) = (d.r.gen_range(0..6), d.r.gen_range(0..6));
+                        deposit_tx(&mut d, key, f1, f2, spell, &used)
+                    }
+                    _ => {
+                        let all = d.r.gen_bool(0.4);
+                        withdraw_tx(&mut d, key, all, spell, &used)
+                    }
+                };
+                if let Some((t, w)) = req {
+                    let live: Vec<CoinID> = d.coins().into_iter().map(|x| x.0).collect();
+                    if t.inputs.iter().any(|c| used.contains(c)) || !t.inputs.iter().all(|c| live.contains(c)) {
+                        continue;
+                    }
+                    batch.push(t);
+                    why.push(w);
+                }
+            }
+            if !batch.is_empty() {
+                d.apply(&batch, 0, json!({"why": why}));
+            }
+        }
+        if b % 5 == 4 {
+            // huge one-sided swap against a built-in pool (drain attempt)
+            let k = PoolKey::new(Denom::Mel, Denom::Sym);
+            if let Some((t, w)) = swap_tx(&mut d, k, true, 4, 0, TxKind::Swap, &[]) {
+                d.apply(&[t], 0, json!({"why": format!("drain attempt: {}", w)}));
+            }
+        }
+        d.seal_next(None);
     }
 }
